@@ -691,9 +691,14 @@ func (s *scen) doHead(h uint64) error {
 
 func (s *scen) doStep(id int, o string) error {
 	w := s.w
-	var g *gate
-	if err := w.waitFor(fmt.Sprintf("worker %d at its gate", id), func() bool { g = w.at[id]; return g != nil }); err != nil {
+	if err := s.settle(); err != nil {
 		return err
+	}
+	w.mu.Lock()
+	g := w.at[id]
+	w.mu.Unlock()
+	if g == nil {
+		return fmt.Errorf("worker %d is not waiting to sample", id)
 	}
 	n := w.nEvents()
 	w.mu.Lock()
@@ -737,9 +742,14 @@ func (w *world) waitFor2(from, id int) (int, error) {
 
 func (s *scen) doDeliver(id int) error {
 	w := s.w
-	var g *gate
-	if err := w.waitFor(fmt.Sprintf("worker %d finished", id), func() bool { g = w.fin[id]; return g != nil }); err != nil {
+	if err := s.settle(); err != nil {
 		return err
+	}
+	w.mu.Lock()
+	g := w.fin[id]
+	w.mu.Unlock()
+	if g == nil {
+		return fmt.Errorf("worker %d has not finished its job", id)
 	}
 	n := w.nEvents()
 	w.mu.Lock()
